@@ -1,5 +1,6 @@
-(* C18_Corr.v — correspondence vocabulary for C18.  Two kinds of cases (see [case] at the
-   end): limiter level and operator level.  A limiter-level case is: the `settings:` block the
+(* C18_Corr.v — correspondence vocabulary for C18.  Kinds of cases (see [case] at the
+   end): limiter level, operator level, operator level timed, operator level timed with a
+   shared queue that is held ([hcase], near the end).  A limiter-level case is: the `settings:` block the
    harness wrote into a hook configuration (values known to the generator: the interval
    in ns and the integer burst; None = key absent), a list of synthetic request instants
    (ns), a RateLimitWait probe (n calls with a deadline [budget] ns away), and what the
@@ -12,7 +13,7 @@
    instants (ns after the instant [0] taken before the goroutines were launched) at which
    the calls returned nil. *)
 From Coq Require Export Uint63.
-From Verif Require Import Common C18_Model C18_Spec C18_Proofs.
+From Verif Require Import Common C18_Model C18_Spec C18_Proofs C18_Shared.
 Open Scope Z_scope.
 
 (* Number literals: elaborating a 14-digit Z literal costs about 1 ms in Coq 8.16 and a
@@ -402,13 +403,85 @@ Definition agrees_t (c : tcase) : bool :=
 Definition P_case_t (c : tcase) : bool :=
   negb (tc_bad c) && P_timed (tc_settings c) (tc_anchors c) (tc_starts c).
 
+(* ======================================================================================
+   Operator level, TIMED, a queue SHARED by several hooks and HELD: the real operator, short
+   intervals (100-200 ms); a hook with settings shares a queue with other hooks (same crontab:
+   their tasks alternate in the queue and are not combined); the executions of the hooks listed
+   as slow are held open by the harness (the scripted hook does not exit) for longer than the
+   interval - or fail first, so that the queue sits in a back-off - while ticks keep arriving;
+   then the harness lets the execution end ("release").  Every other execution ends as soon as
+   it is seen.
+
+   A case is: the hooks and their settings and, for every execution the harness saw, in the
+   order it saw them: the queue, the hook, the REAL task.GetQueuedAt() of the task at the head
+   of that queue (ns on the harness' clock), the instant at which the harness SAW the start
+   (after it happened, never before) and the instant, taken BEFORE the reply was sent, at which
+   the harness let it end (before the handler can have returned, never after).  Anchors: instants
+   taken by the harness at which, for each hook listed with the anchor, every queue that carries a
+   binding of the hook was found empty or blocked inside an execution that the harness had seen
+   and not yet released - so a start of that hook seen at or after the anchor happened after it.
+   The instant just before a release is such an anchor.
+
+   P: the anchored window bound (C18_Spec.P_timed_for) on the seen instants; sound whatever the
+   delays (C18_late_observation_sound_for).
+
+   Comparison with the model, cases in which all bindings are in ONE queue: [serve] run on the
+   observed sequence of executions with the real queued-at instants and the release instants as
+   ends - lower bounds of what the implementation had - must grant every request, and no start
+   may be SEEN earlier than the model starts it (C18_shared_queue_monotone); later is fine.  No
+   exactness of the tick timing is needed: what was combined or retried is read off the
+   observation, the model decides only WHEN the limiter lets each execution start. *)
+Record hrun := mkHR { hr_queue : N; hr_hook : N; hr_queued : Z; hr_seen : Z; hr_replied : Z }.
+
+Record hcase := mkHCase {
+  hc_cfg : config;
+  hc_settings : hook_settings;
+  hc_runs : list hrun;
+  hc_anchors : list (Z * list N);
+  hc_bad : bool                    (* the harness saw something impossible in any model, or the
+                                      queues never became empty *)
+}.
+
+Definition cfg_queues (cfg : config) : list N :=
+  flat_map (fun h => map sb_queue (h_sched h)) cfg.
+Definition single_queue (cfg : config) : bool :=
+  forallb (fun h => match h_kube h, h_startup h with [], None => negb (h_v0 h) | _, _ => false end) cfg
+  && match cfg_queues cfg with [] => false | q :: r => forallb (N.eqb q) r end.
+
+Definition h_tasks (c : hcase) : list qtask :=
+  map (fun r => mkQT (hr_hook r) (hr_queued r) (hr_replied r)) (hc_runs c).
+Definition h_model (c : hcase) : list srun := serve (init_limiters (hc_settings c)) 0 (h_tasks c).
+Definition h_starts (c : hcase) : list (N * Z) := map (fun r => (hr_hook r, hr_seen r)) (hc_runs c).
+
+Fixpoint seen_not_earlier (m : list srun) (i : list hrun) : bool :=
+  match m, i with
+  | x :: mr, r :: ir => match sr_start x with Some s => s <=? hr_seen r | None => false end
+                        && seen_not_earlier mr ir
+  | [], [] => true
+  | _, _ => false
+  end.
+
+Definition agrees_h (c : hcase) : bool :=
+  (* what every observation must look like: queued, then seen, then released; one observer *)
+  forallb (fun r => (hr_queued r <=? hr_seen r) && (hr_seen r <=? hr_replied r)) (hc_runs c)
+  && sortedb (map hr_seen (hc_runs c))
+  && (negb (single_queue (hc_cfg c)) || seen_not_earlier (h_model c) (hc_runs c)).
+
+Definition P_case_h (c : hcase) : bool :=
+  negb (hc_bad c) && P_timed_for (hc_settings c) (hc_anchors c) (h_starts c).
+
+(* the model's own starts meet the predicate used on the observations, whatever was observed *)
+Lemma h_model_P c anchors : P_timed_for (hc_settings c) anchors (sr_all (h_model c)) = true.
+Proof. apply shared_P_timed_for_holds. Qed.
+
 (* ---- all kinds ---- *)
-Inductive case := CLim (c : lcase) | COp (c : opcase) | CTimed (c : tcase).
+Inductive case := CLim (c : lcase) | COp (c : opcase) | CTimed (c : tcase) | CHeld (c : hcase).
 
 Inductive mobs :=
 | MLim (o : obs)
 | MOp (steps : list (sobs * list N)) (starts : list (N * Z)) (throttled : list N) (overrun : bool)
-| MTimed (script : list (Z * action)) (starts : list (N * Z)) (drained : bool).
+| MTimed (script : list (Z * action)) (starts : list (N * Z)) (drained : bool)
+| MHeld (single : bool) (runs : list srun).
 
 Definition model_obs (c : case) : mobs :=
   match c with
@@ -416,12 +489,13 @@ Definition model_obs (c : case) : mobs :=
   | COp c => MOp (op_model_steps c) (starts_all (l_log (op_final c))) (throttled_in (l_log (op_final c)))
                  (l_overrun (op_final c))
   | CTimed c => MTimed (snd (t_sim c)) (t_model_starts c) (drained (fst (t_sim c)))
+  | CHeld c => MHeld (single_queue (hc_cfg c)) (h_model c)
   end.
 
 Definition agrees (c : case) : bool :=
-  match c with CLim c => agrees_l c | COp c => agrees_op c | CTimed c => agrees_t c end.
+  match c with CLim c => agrees_l c | COp c => agrees_op c | CTimed c => agrees_t c | CHeld c => agrees_h c end.
 Definition P_case (c : case) : bool :=
-  match c with CLim c => P_case_l c | COp c => P_case_op c | CTimed c => P_case_t c end.
+  match c with CLim c => P_case_l c | COp c => P_case_op c | CTimed c => P_case_t c | CHeld c => P_case_h c end.
 
 Definition mismatches (cs : list case) : list N := indices_where (fun c => negb (agrees c)) cs.
 Definition spec_violations (cs : list case) : list N := indices_where (fun c => negb (P_case c)) cs.
